@@ -261,7 +261,16 @@ class SymPattern:
             last = m.end(); n += 1
         return out + s[last:]
     def split(self, s, maxsplit=0):
-        raise Unsupported('re.split')
+        if isinstance(s, str): return self.real.split(s, maxsplit)
+        out = []; last = 0; n = 0
+        for m in self.finditer(s):
+            if maxsplit and n >= maxsplit: break
+            if m.end() == m.start() and (m.start() == 0 or m.start() == len(s)): continue
+            out.append(s[last:m.start()])
+            for g in m.groups(): out.append(g)
+            last = m.end(); n += 1
+        out.append(s[last:])
+        return out
 
 class ReShim:
     """replacement for the `re` module name inside instrumented modules"""
